@@ -162,7 +162,7 @@ impl C14 {
                 return fail(col, "syscall-changed-the-status-flags", format!("syscall {} entered with flags {:#x} came back with {:#x}", nr, before, after), &tail);
             }
             if rng.below(12) == 0 {
-                if let Some(d) = perturb(&mut ax, rng, &Perturb { areas: true, hooks: true, clone: true }) {
+                if let Some(d) = perturb(&mut ax, rng, &Perturb { areas: true, hooks: true, clone: true, decoy: 0 }) {
                     return fail(col, "neutral-operation-visible", d, &tail);
                 }
             }
